@@ -11,10 +11,12 @@ P19 = {
     "branch": [r"^(ab|cd)", r"^(a|ab)", r"^(ab|a)", r"^(\d+|x)", r"^(?:\w|@|$)ab", r"^(a*|b)", r"^(?:ab|cd)e", r"^(a|b|)c", r"^([ab]|c)d", r"^(ab|cd|ef)", r"^(ab|\bcd)", r"^(?i:ab|cd)"],
     "anchoredliteral": [r"^a.*c$", r"^a.+c$", r"^.*c$", r"^a.*[b-d]+c$", r"(?s)^a.*c$", r"(?m)^a.*c$", r"^a.*?c$", r"^a.*c\z", r"^ab.*cd$", r"^a.*\.c$", r"\Aa.*c$", r"^a.*é$"],
     "engine": [r".*ab", r".+ab", r".*?ab", r"[^x]*ab", r"(?s).*ab", r".*ab$", r".*(ab|cd)", r".*ab.*", r".+ab.+", r"x.*ab.*y", r"(?m)^.*ab", r"(?m)^/.*\.js", r"\d+ab",
-               r"\d+\.\d+", r"(\d+)-(\d+)", r"\d*x", r"ab$", r"(a|b)$", r"\bab$", r"[a-z]+\.tx", r".*\.(tx|lo)", r"\w+@\w+", r"^(ab|cd)", r"^a.*c$", r"[a-z]+[0-9]+", r"[a-z]+", r"(?i)ab|cd", r"a.*b$"],
+               r"\d+\.\d+", r"(\d+)-(\d+)", r"\d*x", r"ab$", r"(a|b)$", r"\bab$", r"[a-z]+(?:\b-){1,2}e", r"[a-z]+\.tx", r".*\.(tx|lo)", r"\w+@\w+", r"^(ab|cd)", r"^a.*c$", r"[a-z]+[0-9]+", r"[a-z]+", r"(?i)ab|cd", r"a.*b$"],
 }
+# windows for patterns whose interesting matches are longer than the symbolic part
+WIN19 = {r"[a-z]+(?:\b-){1,2}e": [("a", ""), ("a-", "")], r".*ab$": [("", "b")], r"\d+ab": [("1", "")], r"x.*ab.*y": [("x", "y")], r"(?m)^/.*\.js": [("/", "s")], r"\w+@\w+": [("a", "")]}
 QUICK = {
-    "charclass": 5, "composite": 6, "compositedfa": 4, "branch": 6, "anchoredliteral": 7, "engine": 14,
+    "charclass": 5, "composite": 6, "compositedfa": 4, "branch": 6, "anchoredliteral": 7, "engine": 21,
 }
 
 
@@ -37,6 +39,9 @@ def items(tier):
                 out.append(mk("C19", p, api, L, a, n=at))
             if api == "engine":
                 out.append(mk("C19", p, "engine.IsMatch", L, a))
+                for pre, post in WIN19.get(p, []) + corpus.windows(p):
+                    out.append(mk("C19", p, "engine", L, a, n=0, pre=pre, post=post))
+                    out.append(mk("C19", p, "engine.IsMatch", L, a, pre=pre, post=post))
             if tier != "quick":
                 out.append(mk("C19", p, api, 2, a, n=0))
     return out
